@@ -50,10 +50,11 @@ func (ds *dataStore) getStoreKey(keyName string) (sk *storeKey, exists bool) {
 
 func (ds *dataStore) hasChangedUnlocked(keyName string, id uint64) bool {
 	sk, exists := ds.getStoreKey(keyName)
-	if !exists {
+	if !exists || sk.isExpiredUnlocked() {
+		// missing, or gone because its deadline has passed
 		return id != 0
 	} else {
-		return id != sk.id
+		return id != sk.watchStamp()
 	}
 }
 
